@@ -117,7 +117,10 @@ def _exec_crash(scn, crash_at):
             pass    # no table yet
         ev1.append(sync)
         ev2 = r2.execute()
-        rows = read_rows(db, r2)
+        try:
+            rows = read_rows(db, r2)
+        except Exception:
+            rows = []       # a database the resumed run could not even use (the run's own outcome says so)
         return dict(ev=ev1 + ev2, rows=rows, crashed=True, outcome=r2.outcome)
     finally:
         shutil.rmtree(d, ignore_errors=True)
